@@ -104,7 +104,14 @@ class Network:
         now = self.loop.time()
         self.n_c2s += 1
         fates = None
-        if self.c2s is not None:
+        if self.phase_at(now)[0] == "firstlost":
+            # the first datagram that leaves a newly opened endpoint is lost (an expired ARP entry, a radio module
+            # waking up); everything after it gets through
+            seen = self.__dict__.setdefault("_first_seen", set())
+            if transport.id not in seen:
+                seen.add(transport.id)
+                fates = []
+        if fates is None and self.c2s is not None:
             fates = self.c2s(data, now, self.n_c2s)
         if fates is None:
             fates = self._default_fate(data, now, self.n_c2s, "c2s")
